@@ -1135,11 +1135,11 @@ pub fn run_c05(tier: &str, seed: u64) -> Report {
     // footer LENGTH sweep: every length 0..=130 (all residues mod 3 of base64 and mod 16 / 64 of the hash blocks, both
     // sides of 127/128) plus 2^16-1 .. 2^16+1: built with that footer, opened with it, with its (len-1)-prefix and its
     // one-byte extension; core layer on every protocol, generic layer on v4
-    let lens: Vec<usize> = (0..=130usize).chain([255, 256, 257, 65_535, 65_536, 65_537]).collect();
+    let lens: Vec<usize> = (0..=330usize).chain([65_535, 65_536, 65_537]).collect();
     let items: Vec<(P, Layer, usize)> = ALL.iter().flat_map(|&p| lens.iter().map(move |&l| (p, Layer::Core, l))).chain(lens.iter().flat_map(|&l| [(P::V4L, Layer::Generic, l), (P::V4P, Layer::Batteries, l)])).collect();
     let rl = parallel(items.len(), util::threads(), |i, r| {
         let (p, layer, len) = items[i];
-        if p == P::V1P && len > 40 && len % 7 != 0 {
+        if (p == P::V1P || p == P::V3P) && len > 40 && len % 7 != 0 {
             return;
         }
         let mut rng = Rng::new(seed, "c05-len", i as u64);
@@ -1156,6 +1156,11 @@ pub fn run_c05(tier: &str, seed: u64) -> Report {
         let mut supplied: Vec<Option<String>> = vec![built.clone(), Some(format!("{}x", f))];
         if len > 0 {
             supplied.push(if len == 1 { None } else { Some(f[..len - 1].to_string()) });
+            // same length, only the LAST byte (resp. the last eight) different: the end of the encoded input must count too
+            supplied.push(Some(format!("{}#", &f[..len - 1])));
+            if len >= 8 {
+                supplied.push(Some(format!("{}########", &f[..len - 8])));
+            }
         }
         for sf in supplied {
             let c = C05Case { p, layer, key: key.clone(), built_footer: built.clone(), supplied_footer: sf, ia: None, token: token.clone(), class: "pair".into() };
@@ -1164,7 +1169,7 @@ pub fn run_c05(tier: &str, seed: u64) -> Report {
         r.count("footer length sweep");
     });
     total.merge(rl);
-    total.require("footer length sweep", 800);
+    total.require("footer length sweep", 1500);
     let mut rs = Report::new();
     let _ = recent_sessions_take();
     c05_sessions(&pools, &mut rs);
@@ -1201,7 +1206,7 @@ pub fn replay_c05(case: &Value) -> Report {
     r
 }
 
-pub const RULE_C05: &str = "8 protocols x 3 layers x footer catalogue (none, empty, 40 strings + 20 (thorough 300) seeded random ones; incl. prefix/extension pairs, case and whitespace variants, NUL suffix, NFC/NFD, strings whose base64 differs in the last character, strings that are themselves base64 or contain dots): a token is built with each footer F through that layer's builder and presented to that layer's parser with every expected footer F' of the catalogue; oracle: accept iff F' == F with none == empty (string equality in the harness). Plus a re-cut across a length prefix (the first d bytes of the footer, preceded by the footer's length field, are moved behind the message / ciphertext and the rest is presented as footer, d in {128, 256, 65536}: collides iff the PAE length encoding is not injective). Plus a footer LENGTH sweep (every length 0..=130, 255..257, 65535..65537: built, opened with the same footer, its one-byte-shorter prefix and its one-byte extension). Plus parser sessions (the expected footer is changed between parses of one parser object) and 160 (thorough 2000) NESTED pairs of them (a second parser object is created, used and dropped in the middle of another one's session on the same thread; both must answer as alone). Plus the footer segment of every produced token compared with the harness's own base64url encoder, and edits of the segment (removed, emptied, replaced with and without matching expectation, extended, truncated, raw text, followed by further segments, added to a footer-less token with a matching, an empty and NO expectation). distinct_nontrivial = distinct (protocol, layer, built class, supplied class) for accepted pairs and (protocol, layer, case class, rejection variant) for rejected ones";
+pub const RULE_C05: &str = "8 protocols x 3 layers x footer catalogue (none, empty, 40 strings + 20 (thorough 300) seeded random ones; incl. prefix/extension pairs, case and whitespace variants, NUL suffix, NFC/NFD, strings whose base64 differs in the last character, strings that are themselves base64 or contain dots): a token is built with each footer F through that layer's builder and presented to that layer's parser with every expected footer F' of the catalogue; oracle: accept iff F' == F with none == empty (string equality in the harness). Plus a re-cut across a length prefix (the first d bytes of the footer, preceded by the footer's length field, are moved behind the message / ciphertext and the rest is presented as footer, d in {128, 256, 65536}: collides iff the PAE length encoding is not injective). Plus a footer LENGTH sweep (every length 0..=330 and 65535..65537: built, opened with the same footer, its one-byte-shorter prefix, its one-byte extension and same-length footers differing only in the last byte / last eight bytes). Plus parser sessions (the expected footer is changed between parses of one parser object) and 160 (thorough 2000) NESTED pairs of them (a second parser object is created, used and dropped in the middle of another one's session on the same thread; both must answer as alone). Plus the footer segment of every produced token compared with the harness's own base64url encoder, and edits of the segment (removed, emptied, replaced with and without matching expectation, extended, truncated, raw text, followed by further segments, added to a footer-less token with a matching, an empty and NO expectation). distinct_nontrivial = distinct (protocol, layer, built class, supplied class) for accepted pairs and (protocol, layer, case class, rejection variant) for rejected ones";
 
 // ==========================================================================================
 // C06
@@ -1447,8 +1452,8 @@ pub fn run_c06(tier: &str, seed: u64) -> Report {
     total.merge(r);
     // assertion LENGTH sweep (same lengths as the footer sweep of C05), with a footer present so that the assertion is
     // not the last PAE piece only by accident
-    let lens: Vec<usize> = (0..=130usize).chain([255, 256, 257, 65_535, 65_536, 65_537]).collect();
-    let items: Vec<(P, Layer, usize)> = protos.iter().flat_map(|&p| lens.iter().map(move |&l| (p, Layer::Core, l))).chain(lens.iter().flat_map(|&l| [(P::V4L, Layer::Generic, l), (P::V4P, Layer::Batteries, l)])).collect();
+    let lens: Vec<usize> = (0..=330usize).chain([65_535, 65_536, 65_537]).collect();
+    let items: Vec<(P, Layer, usize)> = protos.iter().flat_map(|&p| lens.iter().filter(move |&&l| p != P::V3P || l <= 40 || l % 5 == 0).map(move |&l| (p, Layer::Core, l))).chain(lens.iter().flat_map(|&l| [(P::V4L, Layer::Generic, l), (P::V4P, Layer::Batteries, l)])).collect();
     let rl = parallel(items.len(), util::threads(), |i, r| {
         let (p, layer, len) = items[i];
         let mut rng = Rng::new(seed, "c06-len", i as u64);
@@ -1466,6 +1471,11 @@ pub fn run_c06(tier: &str, seed: u64) -> Report {
         let mut supplied: Vec<Option<String>> = vec![built.clone(), Some(format!("{}x", a))];
         if len > 0 {
             supplied.push(if len == 1 { None } else { Some(a[..len - 1].to_string()) });
+            // same length, only the LAST byte (resp. the last eight) different
+            supplied.push(Some(format!("{}#", &a[..len - 1])));
+            if len >= 8 {
+                supplied.push(Some(format!("{}########", &a[..len - 8])));
+            }
         }
         for sa in supplied {
             let c = C06Case { p, layer, key: key.clone(), footer: footer.map(|x| x.to_string()), supplied_footer: footer.map(|x| x.to_string()), built_ia: built.clone(), supplied_ia: sa, token: token.clone(), class: "pair".into() };
@@ -1474,7 +1484,7 @@ pub fn run_c06(tier: &str, seed: u64) -> Report {
         r.count("assertion length sweep");
     });
     total.merge(rl);
-    total.require("assertion length sweep", 500);
+    total.require("assertion length sweep", 1000);
     let mut rs = Report::new();
     let _ = recent_sessions_take();
     c06_sessions(&pools, &mut rs);
@@ -1506,7 +1516,7 @@ pub fn replay_c06(case: &Value) -> Report {
     r
 }
 
-pub const RULE_C06: &str = "v3/v4 local/public x 3 layers x assertion catalogue (none, empty, 40 strings with near-miss pairs): a token is built with assertion A through that layer's builder and presented to that layer's parser with every A' of the catalogue; oracle: accept iff A' == A (none == empty). Plus ONE builder whose assertion is changed between builds (A, empty, B, blank, empty): each token opens with the assertion in force and with no other. Plus an assertion LENGTH sweep (0..=130, 255..257, 65535..65537; same / one byte shorter / one byte longer). Plus parser sessions (assertion changed between parses) and 160 (thorough 2000) NESTED pairs of them (two parser objects alive at once on one thread); the assertion supplied as footer instead; for 60 (thorough 400) random assertions of >= 12 base64-alphabet characters per protocol with a FIXED nonce: token length equal for none / A / A', A (raw and base64url at the three byte alignments) absent from the token text and decoded payload, nonce||ciphertext identical across assertions (local), tokens differ across assertions; re-split attack (F,A)->(F',A') with F||A == F'||A' at six split points, and across a LENGTH PREFIX (F' = F || len(A) || A[..d-8], A' = A[d..] with A[d-8..d] = LE64(|A'|), d in {128, 256, 32768, 65536}, len(A) written as LE64(|A|) and as LE64(|A|-d): collides iff the PAE length encoding is not injective). distinct_nontrivial = distinct (protocol, layer, class, built class, supplied class)";
+pub const RULE_C06: &str = "v3/v4 local/public x 3 layers x assertion catalogue (none, empty, 40 strings with near-miss pairs): a token is built with assertion A through that layer's builder and presented to that layer's parser with every A' of the catalogue; oracle: accept iff A' == A (none == empty). Plus ONE builder whose assertion is changed between builds (A, empty, B, blank, empty): each token opens with the assertion in force and with no other. Plus an assertion LENGTH sweep (0..=330, 65535..65537; same / one byte shorter / one byte longer / same length with the last byte or last eight bytes changed). Plus parser sessions (assertion changed between parses) and 160 (thorough 2000) NESTED pairs of them (two parser objects alive at once on one thread); the assertion supplied as footer instead; for 60 (thorough 400) random assertions of >= 12 base64-alphabet characters per protocol with a FIXED nonce: token length equal for none / A / A', A (raw and base64url at the three byte alignments) absent from the token text and decoded payload, nonce||ciphertext identical across assertions (local), tokens differ across assertions; re-split attack (F,A)->(F',A') with F||A == F'||A' at six split points, and across a LENGTH PREFIX (F' = F || len(A) || A[..d-8], A' = A[d..] with A[d-8..d] = LE64(|A'|), d in {128, 256, 32768, 65536}, len(A) written as LE64(|A|) and as LE64(|A|-d): collides iff the PAE length encoding is not injective). distinct_nontrivial = distinct (protocol, layer, class, built class, supplied class)";
 
 // ==========================================================================================
 // C07
